@@ -2,7 +2,7 @@ INIT OInit
 NEXT ONext
 CONSTANTS
   Species = {"A", "B", "C", "D"}
-  Catalog <- Cat3
+  Catalog <- Cat2
   MaxR = 2
   KVals <- K3
   Orders <- OrdOne
